@@ -8,12 +8,13 @@ most aggressive `id()` recycling (a new instance always gets the smallest id no 
 namespace KrroodVerif.Drive.SG
 open KrroodVerif KrroodVerif.SG
 
-/-- classes: 0 Thing, 1 Org(Thing), 2 Emp(Thing), 3 Mgr(Emp), 4 A(Thing), 5 B(A), 6 C(A), 7 D(B, C);
+/-- classes: 0 Thing, 1 Org(Thing), 2 Emp(Thing), 3 Mgr(Emp), 4 A(Thing), 5 B(A), 6 C(A), 7 D(B, C),
+8 Chair(Role[Emp], Thing) (a role whose role taker is an Emp; its instances are plain instances for the model);
 fields: 0 Emp.works_for (WorksFor ⊂ MemberOf), 1 Emp.member_of (MemberOf, inverse Member), 2 Org.members (Member,
 inverse MemberOf), 3 Org.sub_of (SubOf, transitive), 4 Thing.knows, 5 Thing.likes (plain dataclass fields) -/
 def schema : Schema where
   subs := fun c => match c with
-    | 0 => [1, 2, 4] | 2 => [3] | 4 => [5, 6] | 5 => [7] | 6 => [7] | _ => []
+    | 0 => [1, 2, 4, 8] | 2 => [3] | 4 => [5, 6] | 5 => [7] | 6 => [7] | _ => []
   depth := 4
   kind := fun f => match f with
     | 0 => .scalar | 1 => .list | 2 => .set | 3 => .list | _ => .plain
@@ -23,10 +24,34 @@ def schema : Schema where
   desc := fun f => f
   fuel := 64
 
+/-- the hierarchy with the classes a history defines at run time (`(defclass c parent)`: `c` becomes the LAST
+direct subclass of `parent`). A class has no instance before it is defined, so running the whole history over the
+final hierarchy is the same as extending the hierarchy on the way: a census ranges over the classes that exist when
+it is taken. The theorems hold for every `Schema`, this one included. -/
+def schemaWith (extra : List (Cls × Cls)) : Schema :=
+  { schema with
+    subs := fun c => schema.subs c ++ (extra.filter (fun p => p.2 == c)).map (·.1),
+    depth := schema.depth + extra.length }
+
+def parseDefs (xs : List Sexp) : List (Cls × Cls) :=
+  xs.filterMap fun x => match x with
+    | .list [.atom "defclass", c, p] => do pure ((← c.asNat?), (← p.asNat?))
+    | _ => none
+
+/-- `(churn o n c)`: `n` instances of class `c`, labelled `o … o+n-1`, each created and discarded at once -/
+def churnOps (o n c : Nat) : List Op :=
+  (List.range n).flatMap fun i => [.new (o + i) c 0, .drop (o + i)]
+
 def parseOp (pos : Nat) : Sexp → Option (List Op)
   | .list [.atom "new", o, c] => do pure [.new (← o.asNat?) (← c.asNat?) 0]
   | .list [.atom "drop", o] => do pure [.drop (← o.asNat?)]
   | .list [.atom "sweep"] => some [.sweep]
+  | .list [.atom "defclass", _, _] => some []
+  | .list [.atom "churn", o, n, c] => do pure (churnOps (← o.asNat?) (← n.asNat?) (← c.asNat?))
+  -- a role instance (class 8) is a plain instance for the model; the role-taker inference of `head_of` is not
+  -- modelled: these operations only occur in query-free C20 loops, where what they record cannot be observed
+  | .list [.atom "newrole", o, _] => do pure [.new (← o.asNat?) 8 0]
+  | .list [.atom "head", _, _] => some []
   | .list [.atom "clear"] => some [.clear]
   | .list [.atom "rel", f, s, t] => do pure [.rel (← f.asNat?) (← s.asNat?) (← t.asNat?)]
   | .list [.atom "set", f, s, t] => do pure [.set (← f.asNat?) (← s.asNat?) (← t.asNat?)]
@@ -64,13 +89,20 @@ def fill (h : Heap) : Op → Op
 
 abbrev DSt := St (List Nat × Nat)
 
-def stepD (q : Quirks) (st : DSt) (op : Op) : DSt := step q schema lifo st (fill st.h op)
-def runFrom (q : Quirks) (st : DSt) (ops : List Op) : DSt := ops.foldl (stepD q) st
-def runD (q : Quirks) (ops : List Op) : DSt := runFrom q (St.init lifo) ops
+def stepS (S : Schema) (q : Quirks) (st : DSt) (op : Op) : DSt := step q S lifo st (fill st.h op)
+def runFromS (S : Schema) (q : Quirks) (st : DSt) (ops : List Op) : DSt := ops.foldl (stepS S q) st
+def runS (S : Schema) (q : Quirks) (ops : List Op) : DSt := runFromS S q (St.init lifo) ops
 
-def specStepD (q : Quirks) (s : Spec) (op : Op) : Spec := specStep q schema s (fill s.h op)
+def specStepS (S : Schema) (q : Quirks) (s : Spec) (op : Op) : Spec := specStep q S s (fill s.h op)
+def specRunS (S : Schema) (q : Quirks) (ops : List Op) : Spec := ops.foldl (specStepS S q) Spec.init
+
+def stepD (q : Quirks) (st : DSt) (op : Op) : DSt := stepS schema q st op
+def runFrom (q : Quirks) (st : DSt) (ops : List Op) : DSt := runFromS schema q st ops
+def runD (q : Quirks) (ops : List Op) : DSt := runS schema q ops
+
+def specStepD (q : Quirks) (s : Spec) (op : Op) : Spec := specStepS schema q s op
 def specFrom (q : Quirks) (s : Spec) (ops : List Op) : Spec := ops.foldl (specStepD q) s
-def specRunD (q : Quirks) (ops : List Op) : Spec := specFrom q Spec.init ops
+def specRunD (q : Quirks) (ops : List Op) : Spec := specRunS schema q ops
 
 /-! canonical printing -/
 
